@@ -40,6 +40,15 @@ def cells(tier):
         out.append(cell(f"s1->3 {'*' * stars}M4/3 (pool grows during the call)", sc, MON))
         sc = scen(pool(2), [[M("M", 4, 2, stars=stars, bad=[["T", 1]])], [A("A", 1)]], outcomes=["ret"])
         out.append(cell(f"s2 {'*' * stars}M4/2 typebad[1]|A1", sc, MON))
+    # callbacks of the call's tasks still in progress while the pool is flushed (both flavours): the call keeps its
+    # num_concurrent and finishes its iterable
+    for size in [2, "inf"]:
+        for nc in [1, 2]:
+            for fn, fl in (("flush", FLUSH), ("flush-r", FLUSH_RE)):
+                sc = scen(pool(size), [[M("M", 3, nc)], [cancel(rid("M", 0))], [fl]], outcomes=["ret"], ecb="plain", ccb="slow", slow_ids=[0])
+                out.append(cell(f"s{size} M3/{nc} cancelM0(slow ccb) {fn}", sc, MON))
+            sc = scen(pool(size), [[M("M", 3, nc)], [FLUSH_RE]], outcomes=["ret", "exc"], ecb="slow", ccb="plain", slow_ids=[0])
+            out.append(cell(f"s{size} M3/{nc} slow ecb0 flush-r", sc, MON))
     if not q:
         for size in [1, 2]:
             sc = scen(pool(size), [[M("M", 4, 2)], [M("N", 3, 1, stars=1)], [cancel(rid("N", 0))]], outcomes=["ret", "exc"], ecb="slow", slow_ids=[0])
